@@ -151,6 +151,10 @@ def build_mutant(agent, cfg, reqs, d, variant=0):
             kw["mac"] = "absent"
         kw["flag_auth"] = d["flagAuth"]
         kw["enc"] = {"ok": "ok", "plain": "plain", "bad": "badkey"}[d["enc"]]
+    # replies of every kind (matching, stale, foreign) also come with a non-zero error-status: matching is about ids, not about it
+    es = [0, 0, 2, 0, 5, 2, 1, 0][variant % 8]
+    if es and ptype == "response":
+        kw["es"], kw["ei"] = es, 1
     vbs = reply_varbinds(op, j)
     if ptype == "report":
         vbs = [([1, 3, 6, 1, 6, 3, 15, 1, 1, 3, 0], ("counter32", 7))]
